@@ -19,9 +19,18 @@ type TypingCase struct {
 	Mutation string `json:"mutation,omitempty"`
 }
 
-func genTypingCase(t *rapid.T) *TypingCase {
+func genTypingCase(t *rapid.T) *TypingCase { return genTypingCaseWith(t, nil) }
+
+// genBottomTypingCase: always mutated, and only by the mutations that put the element type of
+// an empty literal where another type is required (or allowed)
+func genBottomTypingCase(t *rapid.T) *TypingCase {
+	return genTypingCaseWith(t, []string{"bottom-typed-subexpr", "bottom-typed-key", "bottom-typed-dynamic-argument", "empty-literal-mix"})
+}
+
+func genTypingCaseWith(t *rapid.T, only []string) *TypingCase {
 	o := gen.ProgOpt{Fuel: 3, Partial: true, Sugar: true, Maybe: true, Times: true, Harness: true, NonFinite: false}
 	g := gen.NewG(t, o)
+	g.OnlyMutations = only
 	ovs := gen.DrawOvs(t)
 	g.Ovs = ovs
 	if ovs == nil {
@@ -38,7 +47,7 @@ func genTypingCase(t *rapid.T) *TypingCase {
 		e = g.Expr(want)
 	}
 	c := &TypingCase{}
-	if rapid.IntRange(0, 9).Draw(t, "mutate") < 6 {
+	if rapid.IntRange(0, 9).Draw(t, "mutate") < 6 || len(only) > 0 {
 		e2, kind := g.Mutate(e)
 		if kind != "" {
 			e, c.Mutation = e2, kind
